@@ -2080,4 +2080,54 @@ theorem join_congr {inds inds' : List String} (hm : ∀ x, x ∈ inds ↔ x ∈ 
     | nil => rfl
     | cons j0 rest => simp only [placeJoined_congr hc]
 end selection
+
+/-! ### write-back of `nearest_valid_parameters`: dictionary lemmas -/
+section writeback
+variable {α : Type} [Zero α] [DecidableEq α]
+
+theorem foldl_assign_init {V : Type} (a : α) (l : List (α × V)) : ∀ acc : Option V,
+    l.foldl (fun acc p => if p.1 = a then some p.2 else acc) acc = (lastAssigned l a).or acc := by
+  unfold lastAssigned
+  induction l with
+  | nil => intro acc; simp
+  | cons p t ih =>
+    intro acc
+    rw [List.foldl_cons, List.foldl_cons, ih, ih (if p.1 = a then some p.2 else none)]
+    by_cases h : p.1 = a
+    · simp only [if_pos h]
+      cases (List.foldl (fun acc p => if p.1 = a then some p.2 else acc) none t) <;> simp
+    · simp only [if_neg h]
+      cases (List.foldl (fun acc p => if p.1 = a then some p.2 else acc) none t) <;> simp
+
+theorem lookup_filter_append {V : Type} (vals : List (String × V)) (t s : String) (v : V) :
+    ((vals.filter (·.1 ≠ t)) ++ [(t, v)]).lookup s = if t = s then some v else vals.lookup s := by
+  induction vals with
+  | nil =>
+    by_cases h : t = s
+    · subst h; simp
+    · have : (s == t) = false := by simpa using fun e => h e.symm
+      simp [List.lookup, this, h]
+  | cons p rest ih =>
+    obtain ⟨k, x⟩ := p
+    by_cases hk : k = t
+    · subst hk
+      have : List.filter (fun q : String × V => decide (q.1 ≠ k)) ((k, x) :: rest) = List.filter (fun q => decide (q.1 ≠ k)) rest := by
+        simp
+      rw [this, ih]
+      by_cases h : k = s
+      · simp [h]
+      · have : (s == k) = false := by simpa using fun e => h e.symm
+        simp [h, List.lookup, this]
+    · have : List.filter (fun q : String × V => decide (q.1 ≠ t)) ((k, x) :: rest) = (k, x) :: List.filter (fun q => decide (q.1 ≠ t)) rest := by
+        simp [hk]
+      rw [this, List.cons_append, List.lookup, List.lookup]
+      by_cases hs : s = k
+      · subst hs
+        have : t ≠ s := fun e => hk e.symm
+        simp [this]
+      · have : (s == k) = false := by simpa using hs
+        simp only [this]
+        exact ih
+
+end writeback
 end Pharmpy.C11
